@@ -164,6 +164,16 @@ CLAIMS['C19'] = dict(
     technique='symbolic execution of the real Python with z3 (own executor for get_batch; CrossHair for the option manager)', engine='pysym+ch',
     ref='DESIGN.md section 3, C19')
 
+CLAIMS['C09'] = dict(
+    text='CrossHair (symbolic execution of the real hydrodiy.io.csv functions with z3) confirms over all paths that a single-line comment value of up '
+         'to 4 arbitrary characters is returned unchanged by _header2comment under a short key and that the lines written by _csvhead read back '
+         '(through the reader\'s prefix stripping) into the caller\'s comments and recorded counts; 25-character keys and symbolic counts are attempted '
+         'and reported inconclusive when CrossHair does not finish.  The storage modes (plain, compressed under .csv/.zip/extension-less/dotted names, '
+         'archive member in a sub-folder) form a finite configuration space and are enumerated on real temporary files.',
+    note='Header logic: values <= 4 chars, no newline / outer blanks. Everything pandas does with the body is only exercised by the enumerated scenario '
+         '(one frame with float / int / text columns), not decided symbolically: the property is claimed in part.',
+    technique=TECH_C, engine='ch', ref='DESIGN.md section 3, C09')
+
 PENDING = 'check not built yet in this session (planned, see DESIGN.md section 3)'
 NOT_APPLICABLE = {
     'C13': 'persistence is carried by numpy tofile/fromfile, dtype objects, zipfile and float repr: no arithmetic core a solver can be given; '
